@@ -402,21 +402,36 @@ def pathRecord (c : Ctx) (fs : List Feature) (f : Feature) : Except BuildError B
   let rels ← refsOf c (relationsOfMember fs f.id)
   orPanic "Path.Marshal" (Path.marshal c.osm ⟨ts, areas, rels⟩)
 
+/-- the running totals `FromS2Polygon` / `Area.FromFeature` record as boundaries: the index at which
+every list but the first starts -/
+def bounds {α : Type} (start : Nat) : List (List α) → List Nat
+  | [] => []
+  | [_] => []
+  | l :: l' :: rest => (start + l.length) :: bounds (start + l.length) (l' :: rest)
+
 /-- `FromS2Polygon` on a polygon whose loops all survive quantisation: boundaries + points -/
-def polygonLL (ls : List (List LatLng)) : PolygonLL :=
-  ⟨(ls.dropLast.foldl (fun (acc : List Nat × Nat) l => (acc.1 ++ [acc.2 + l.length], acc.2 + l.length)) ([], 0)).1.map (BitVec.ofNat 64),
-   ls.flatten⟩
+def polygonLL (ls : List (List LatLng)) : PolygonLL := ⟨(bounds 0 ls).map (BitVec.ofNat 64), ls.flatten⟩
 
 /-- `PolygonGeometryLatLngs.IsValid` -/
 def polygonValid (q : PolygonLL) : Bool := decide (2 < q.points.length)
 
+/-- `Area.FromFeature`, references: before the paths of every polygon are appended, `start = len(paths)` is
+recorded as a boundary if it is positive -/
+def refStarts {α : Type} (start : Nat) : List (List α) → List Nat
+  | [] => []
+  | l :: rest => (if start > 0 then [start] else []) ++ refStarts (start + l.length) rest
+
+def pathsOf : Poly → Option (List FID)
+  | .paths ids => some ids
+  | .loops _ => none
+def loopsOf : Poly → Option (List (List LatLng))
+  | .loops ls => some ls
+  | .paths _ => none
+
 /-- `Area.FromFeature` (with fixes/C01-mixed-area.patch for the mixed case) -/
 def areaGeometry (c : Ctx) (a : Feature) : Except BuildError AreaGeometry :=
-  let isRef : Poly → Bool := fun p => match p with
-    | .paths _ => true
-    | .loops _ => false
-  let r := a.polys.any isRef
-  let l := a.polys.any (fun p => !isRef p)
+  let r := a.polys.any fun p => (pathsOf p).isSome
+  let l := a.polys.any fun p => (loopsOf p).isSome
   if r && l then do
     let ps ← a.polys.mapM fun p => match p with
       | .paths ids => do
@@ -425,16 +440,11 @@ def areaGeometry (c : Ctx) (a : Feature) : Except BuildError AreaGeometry :=
       | .loops ls => pure (if polygonValid (polygonLL ls) then some ⟨[], polygonLL ls⟩ else none)
     pure (.mixed (ps.filterMap id))
   else if r then do
-    let lists ← a.polys.mapM fun p => match p with
-      | .paths ids => refsOf c ids
-      | .loops _ => pure []
-    let starts := (lists.foldl (fun (acc : List Nat × Nat) rs =>
-      ((if acc.2 > 0 then acc.1 ++ [acc.2] else acc.1), acc.2 + rs.length)) ([], 0)).1
-    pure (.refs ⟨starts.map (BitVec.ofNat 64), lists.flatten⟩)
+    let idLists := a.polys.filterMap pathsOf
+    let rs ← refsOf c idLists.flatten
+    pure (.refs ⟨(refStarts 0 idLists).map (BitVec.ofNat 64), rs⟩)
   else
-    pure (.latlngs ((a.polys.filterMap fun p => match p with
-      | .loops ls => some (polygonLL ls)
-      | .paths _ => none).filter polygonValid))
+    pure (.latlngs (((a.polys.filterMap loopsOf).map polygonLL).filter polygonValid))
 
 def areaRecord (c : Ctx) (fs : List Feature) (a : Feature) : Except BuildError Bytes := do
   let ts ← orPanic "area tags" (toCompactTags c a)
@@ -508,7 +518,7 @@ def build (strs : List Str) (fs : List Feature) : Except BuildError Index := do
   let scr := scr.flatten
   let pts := (blockNamespaces nt).filterMap fun (n, ns) => pointBlock c fs scr n ns
   let rest ← (blockNamespaces nt).mapM fun (n, ns) => do
-    let a ← featureBlock c ((fs.map id)) 1 n ns
+    let a ← featureBlock c fs 1 n ns
     let b ← featureBlock c fs 2 n ns
     let d ← featureBlock c fs 3 n ns
     pure ([a, b, d].filterMap id)
@@ -581,51 +591,47 @@ def location (ix : Index) (id : FID) : Option LatLng :=
 /-- one polygon of a loaded area: `Feature(i)` gives the paths, otherwise `Polygon(i)` the loops -/
 def polyOfRefs (nt : List Str) (rs : List Reference) : Option Poly := (rs.mapM (unRef nt)).map Poly.paths
 
-/-- split `points` at the loop boundaries (`PolygonGeometryLatLngs.Polygon`) -/
-def splitLoops (bounds : List Nat) (pts : List LatLng) : List (List LatLng) :=
-  let rec go (start : Nat) : List Nat → List (List LatLng)
-    | [] => [pts.drop start]
-    | b :: bs => ((pts.drop start).take (b - start)) :: go b bs
-  go 0 bounds
+/-- split a list at the boundaries (`PolygonGeometryLatLngs.Polygon`, `AreaGeometryReferences.PathIDs`) -/
+def splitAt {α : Type} (xs : List α) (start : Nat) : List Nat → List (List α)
+  | [] => [xs.drop start]
+  | b :: bs => ((xs.drop start).take (b - start)) :: splitAt xs b bs
+
+def splitLoops (bs : List Nat) (pts : List LatLng) : List (List LatLng) := splitAt pts 0 bs
 
 def polysOfGeometry (nt : List Str) : AreaGeometry → Option (List Poly)
-  | .refs a =>
-    let bounds := a.polygons.map (·.toNat)
-    (a.paths.mapM (unRef nt)).map fun ids =>
-      let rec go (start : Nat) : List Nat → List Poly
-        | [] => [Poly.paths (ids.drop start)]
-        | b :: bs => Poly.paths ((ids.drop start).take (b - start)) :: go b bs
-      go 0 bounds
+  | .refs a => (a.paths.mapM (unRef nt)).map fun ids => (splitAt ids 0 (a.polygons.map (·.toNat))).map Poly.paths
   | .latlngs ps => some (ps.map fun q => Poly.loops (splitLoops (q.loops.map (·.toNat)) q.points))
   | .mixed ps => ps.mapM fun q =>
       if q.paths.isEmpty then some (Poly.loops (splitLoops (q.ll.loops.map (·.toNat)) q.ll.points))
       else polyOfRefs nt q.paths
 
+/-- what the reader makes of the record of feature `id` found in a block with header `hdr`; `none` = reading
+it panics.  Points, areas and relations read their tags with a nil namespace table. -/
+def decodeFeature (strs nt : List Str) (hdr : Namespaces) (id : FID) (data : Bytes) : Option Feature :=
+  match id.typ with
+  | 0 => (allTags strs none 0#16 data).map fun ts => { id := id, tags := ts }
+  | 1 => do
+    let n ← nsEncode nt nsOsmNode
+    let ts ← allTags strs (some nt) (combineTypeNs 0#64 (ns16 n)) data
+    pure { id := id, tags := ts }
+  | 2 => do
+    let ts ← allTags strs none 0#16 data
+    let (a, _) ← Area.dec hdr data
+    let ps ← polysOfGeometry nt a.polygons
+    pure { id := id, tags := ts, polys := ps }
+  | _ => do
+    let ts ← allTags strs none 0#16 data
+    let (r, _) ← Relation.dec 1#64 hdr data
+    let ms ← r.members.mapM fun m => do
+      let role ← strs[m.role.toNat]?
+      let mid ← unRef nt m.id
+      pure (⟨role, mid⟩ : FMember)
+    pure { id := id, tags := ts, members := ms }
+
 /-- `FindFeatureByID(id)` and everything the harness reads off the result; `none` = not found;
 `some none` = found but reading it panics -/
 def find (ix : Index) (id : FID) : Option (Option Feature) :=
-  match lookup ix id with
-  | none => none
-  | some (b, e) => some (
-    match id.typ with
-    | 0 => (allTags ix.strs none 0#16 e.data).map fun ts => { id := id, tags := ts }
-    | 1 => do
-      let n ← nsEncode ix.nt nsOsmNode
-      let ts ← allTags ix.strs (some ix.nt) (combineTypeNs 0#64 (ns16 n)) e.data
-      pure { id := id, tags := ts }
-    | 2 => do
-      let ts ← allTags ix.strs none 0#16 e.data
-      let (a, _) ← Area.dec b.hdr e.data
-      let ps ← polysOfGeometry ix.nt a.polygons
-      pure { id := id, tags := ts, polys := ps }
-    | _ => do
-      let ts ← allTags ix.strs none 0#16 e.data
-      let (r, _) ← Relation.dec 1#64 b.hdr e.data
-      let ms ← r.members.mapM fun m => do
-        let role ← ix.strs[m.role.toNat]?
-        let mid ← unRef ix.nt m.id
-        pure (⟨role, mid⟩ : FMember)
-      pure { id := id, tags := ts, members := ms })
+  (lookup ix id).map fun (b, e) => decodeFeature ix.strs ix.nt b.hdr id e.data
 
 /-- iteration order of a block: buckets in order, ids ascending within a bucket -/
 def iterIds (b : Block) : List Entry :=
@@ -691,5 +697,65 @@ clockwise closed path is stored inverted; explicit polygons with fewer than thre
 def canon (fs : List Feature) (f : Feature) : Feature :=
   let g := validated fs f
   { id := g.id, tags := g.tags, polys := canonPolys g.polys, members := g.members }
+
+/-! ## the domain of the round trip property -/
+
+/-- an id the 16-bit `TypeAndNamespace` can hold (the code uses types 0–3) -/
+def FID.ok (i : FID) : Bool := decide (i.typ < 8) && i.valid
+
+/-- tag values the index can hold for a path: no single feature id (finding `fid-tag-value`); list elements
+are lat/lngs or valid references -/
+def Val.ok : Val → Bool
+  | .str _ => true
+  | .pt _ => true
+  | .fid _ => false
+  | .list xs => xs.all fun e => match e with
+    | .ref id => id.ok
+    | .ll _ => true
+
+/-- tag values of points, areas and relations: strings and points -/
+def Val.plain : Val → Bool
+  | .str _ => true
+  | .pt _ => true
+  | _ => false
+
+def stringsOf (f : Feature) : List Str :=
+  (f.tags.flatMap fun t => t.key :: (match t.val with
+    | .str s => [s]
+    | _ => [])) ++ f.members.map (·.role)
+
+/-- no Go slice is longer than this; below it no length word overflows -/
+def sizeOK (f : Feature) : Bool :=
+  decide (f.tags.length < 2 ^ 48) && decide (f.members.length < 2 ^ 48) && decide (f.polys.length < 2 ^ 48) &&
+  f.tags.all (fun t => match t.val with
+    | .list xs => decide (xs.length < 2 ^ 48)
+    | _ => true) &&
+  f.polys.all fun p => match p with
+    | .paths ids => decide (ids.length < 2 ^ 48)
+    | .loops ls => decide (ls.length < 2 ^ 48) && decide (ls.flatten.length < 2 ^ 48)
+
+/-- a feature the builder keeps and the index can represent -/
+def featureOK (fs : List Feature) (f : Feature) : Bool :=
+  f.id.valid && decide (f.id.typ < 4) && sizeOK f &&
+  match f.id.typ with
+  | 0 => f.tags.all (·.val.plain) && (pointLocation f).isSome
+  | 1 => f.tags.all (·.val.ok) && (getTag f.tags kPoint).isNone && pathValid fs f &&
+      (geomElems f).all (fun e => match e with
+        | .ref id => id.typ == 0
+        | .ll _ => true)
+  | 2 => f.tags.all (·.val.plain) && areaKept fs f &&
+      f.polys.all fun p => match p with
+        | .paths ids => !ids.isEmpty && ids.all fun id => id.typ == 1 && id.valid
+        | .loops _ => true
+  | _ => f.tags.all (·.val.plain) &&
+      f.members.all fun m => m.id.valid && decide (m.id.typ < 4) && (m.id.typ != 0 || decide (0 < blockCount fs m.id.ns 0))
+
+/-- **the decidable domain of `compact_roundtrip`**: ids distinct, every feature kept by the builder's
+validation and representable, the string table holds every string of the source, the tables fit their
+fields.  (`!hasFidTag fs` is implied by `featureOK`; it is listed because it is the known finding class.) -/
+def Accepts (strs : List Str) (fs : List Feature) : Bool :=
+  ((fs.map (·.id)).eraseDups.length == fs.length) && fs.all (featureOK fs) && !hasFidTag fs &&
+  (fs.flatMap stringsOf).all (strs.contains ·) && decide (strs.length < 2 ^ 48) && decide ((nsTable fs).length ≤ 8192) &&
+  decide (fs.length < 2 ^ 48)
 
 end B6.Model.CompactIndex
